@@ -278,14 +278,18 @@ var shortMonthNames = []string{
 }
 
 // hostport is a simplified no-alloc version of
-// net.SplitHostPort. Since we know that the
-// address values have the correct form we can
-// skip all the error checking.
+// net.SplitHostPort. The address values come from
+// the connection and from the target URL. The
+// latter does not need to have a port.
 func hostport(s string) (host, port string) {
 	if s == "" {
 		return "", ""
 	}
 	n := strings.LastIndexByte(s, ':')
+	if n < 0 || s[len(s)-1] == ']' {
+		// no port: "host" or a bracketed IPv6 literal "[::1]"
+		return s, ""
+	}
 	return s[:n], s[n+1:]
 }
 
